@@ -461,8 +461,6 @@ def run(ctx, rep):
     rule_ident(ctx, rep)
     rule_vars(ctx, rep)
     rule_collide(ctx, rep, g)
-    try:
-        from rules import c01_consume
-        c01_consume.run(ctx, rep, g)
-    except ImportError:
-        pass
+    from rules import c01_consume, c01_drain
+    c01_consume.run(ctx, rep, g)
+    c01_drain.run(ctx, rep, g)
